@@ -12,7 +12,7 @@ From Coq Require Import ZArith List Bool Permutation Lia.
 From PTK Require Import Lib.Sx Lib.Py Model.Document Model.BufferEdit Proofs.BufferEditFacts
   Proofs.C02_Base
   Model.C09_Kill Model.C09_KillPatched Proofs.C09_Ring Proofs.C09_KillFacts Proofs.C09_YankFacts
-  Proofs.C09_CutFacts Proofs.C09_LinesFacts Proofs.C09_RingBound Proofs.C09_RegFacts Proofs.C09_BlockFacts.
+  Proofs.C09_CutFacts Proofs.C09_LinesFacts Proofs.C09_RingBound Proofs.C09_RegFacts Proofs.C09_BlockFacts Proofs.C09_StepFacts.
 Import ListNotations.
 Open Scope Z_scope.
 
@@ -176,13 +176,38 @@ Proof.
 Qed.
 Print Assumptions C09_vi_x_X_D_exact.
 
-(* x or D followed by P restores the text *)
-Theorem C09_vi_delete_then_P_restores : forall s o,
-  killed true s o (fun x => x) ->
-  exists s2, buf_paste (snd o) (ring_get (sring (snd o))) VI_BEFORE 1 = (0, s2)
-             /\ btext (sb s2) = btext (sb s).
-Proof. exact kill_then_vi_P_restores. Qed.
-Print Assumptions C09_vi_delete_then_P_restores.
+(* x or D followed by a paste, THROUGH [step] (the cursor fix-up that runs after
+   every Vi handler included): if the fix-up left the cursor where the kill
+   happened, P restores the text; if it moved it (the kill emptied the rest of
+   the line), p restores it. *)
+Theorem C09_vi_D_then_paste_restores : forall s,
+  svi s = true -> ssel s = None -> Inv (sb s) ->
+  exists s1, step s ViD None = (0, s1) /\
+    (bcur (sb s1) = bcur (sb s) ->
+     exists s3, step s1 ViBigP None = (0, s3) /\ btext (sb s3) = btext (sb s)) /\
+    (bcur (sb s1) <> bcur (sb s) ->
+     exists s3, step s1 ViP None = (0, s3) /\ btext (sb s3) = btext (sb s)).
+Proof. exact vi_D_then_paste_step. Qed.
+Print Assumptions C09_vi_D_then_paste_restores.
+
+Theorem C09_vi_x_then_paste_restores : forall s,
+  svi s = true -> ssel s = None -> Inv (sb s) ->
+  0 < len (current_line_after_cursor (bdoc (sb s))) ->
+  exists s1, step s ViX None = (0, s1) /\
+    (bcur (sb s1) = bcur (sb s) ->
+     exists s3, step s1 ViBigP None = (0, s3) /\ btext (sb s3) = btext (sb s)) /\
+    (bcur (sb s1) <> bcur (sb s) ->
+     exists s3, step s1 ViP None = (0, s3) /\ btext (sb s3) = btext (sb s)).
+Proof. exact vi_x_then_paste_step. Qed.
+Print Assumptions C09_vi_x_then_paste_restores.
+
+(* ... and "D then P restores" without that case distinction is false: "abc",
+   cursor 1, D P gives "bca" (the fix-up moved the cursor onto "a") *)
+Theorem C09_vi_D_then_P_refuted :
+  exists s, svi s = true /\ ssel s = None /\ Inv (sb s) /\
+    btext (sb (snd (step (snd (step s ViD None)) ViBigP None))) <> btext (sb s).
+Proof. exact vi_D_then_P_refuted. Qed.
+Print Assumptions C09_vi_D_then_P_refuted.
 
 (* yy stores the addressed lines with type LINES and changes nothing *)
 Theorem C09_vi_yy_pure : forall s arg,
@@ -323,20 +348,34 @@ Theorem C09_vi_register_fidelity_delete : forall s orig r,
 Proof. exact visual_register_delete. Qed.
 Print Assumptions C09_vi_register_fidelity_delete.
 
-(* ... and reg-p / reg-P with a count n then inserts exactly n unchanged copies *)
-Theorem C09_vi_register_yank_then_paste : forall s orig r (before : bool) n,
-  Inv (sb s) -> 0 <= orig <= len (btext (sb s)) -> is_register_name r = true ->
-  selected_chars s orig <> [] ->
-  exists s1 s2,
-    vi_visual s (orig, CHARACTERS) 4 r = (0, s1) /\
-    vi_paste_reg s1 r (if before then VI_BEFORE else VI_AFTER) n = (0, s2) /\
-    let at_ := paste_at (if before then VI_BEFORE else VI_AFTER) (bcur (sb s)) (len (btext (sb s))) in
-    btext (sb s2) = firstn (Z.to_nat at_) (btext (sb s))
-                    ++ repeat_str (selected_chars s orig) (Z.to_nat n)
-                    ++ skipn (Z.to_nat at_) (btext (sb s)) /\
-    sregs s2 = sregs s1 /\ sring s2 = sring s.
-Proof. exact visual_register_yank_then_paste. Qed.
-Print Assumptions C09_vi_register_yank_then_paste.
+(* ... and reg-p / reg-P with a count n then inserts exactly n unchanged copies.
+   Both commands THROUGH [step]: the yank leaves the cursor where it was or one
+   to the left (fix-up after the operator), the count digits run the fix-up once
+   more, and the copies go in at the position the mode defines for THAT cursor. *)
+Theorem C09_vi_register_yank_step : forall s orig r,
+  svi s = true -> ssel s = None -> Inv (sb s) -> 0 <= orig <= len (btext (sb s)) ->
+  is_register_name r = true -> selected_chars s orig <> [] ->
+  exists s1, step s (ViVisual orig CHARACTERS 4 r) None = (0, s1) /\
+    btext (sb s1) = btext (sb s) /\ sring s1 = sring s /\ svi s1 = true /\ ssel s1 = None /\
+    reg_get (sregs s1) r = Some (mkclip (selected_chars s orig) CHARACTERS) /\
+    bcur (sb s) - 1 <= bcur (sb s1) <= bcur (sb s).
+Proof. exact step_visual_register_yank. Qed.
+Print Assumptions C09_vi_register_yank_step.
+
+Theorem C09_vi_register_paste_step : forall s1 r (before : bool) n data,
+  svi s1 = true -> ssel s1 = None -> Inv (sb s1) -> is_register_name r = true ->
+  reg_get (sregs s1) r = Some data -> ctype data = CHARACTERS -> n < 1000000 ->
+  let s0 := fix_vi_cursor s1 in
+  let mode := if before then VI_BEFORE else VI_AFTER in
+  let at_ := paste_at mode (bcur (sb s0)) (len (btext (sb s1))) in
+  exists s2, step s1 (ViPasteReg r before) (Some n) = (0, s2) /\
+    btext (sb s2) = firstn (Z.to_nat at_) (btext (sb s1))
+                    ++ repeat_str (ctext data) (Z.to_nat n)
+                    ++ skipn (Z.to_nat at_) (btext (sb s1)) /\
+    sregs s2 = sregs s1 /\ sring s2 = sring s1 /\
+    bcur (sb s1) - 1 <= bcur (sb s0) <= bcur (sb s1).
+Proof. exact step_register_paste. Qed.
+Print Assumptions C09_vi_register_paste_step.
 
 (* pasting LINES data n >= 1 times: the new text is the old line list with n
    copies of the data inserted below (p, emacs yank) or above (P) the cursor
@@ -494,6 +533,43 @@ Theorem C09_paste_block_n : forall d data mode n t' c',
        nthZ res (row + i) = block_ins sc n (nthZ (lines d) (row + i)) (nth (Z.to_nat i) parts [])).
 Proof. exact doc_paste_block. Qed.
 Print Assumptions C09_paste_block_n.
+
+(* ---- round 5: is_repeat through [step], runs of n consecutive kills ---- *)
+
+(* after any successfully handled key command the key processor's "previous
+   handler" is that command's binding (reports and direct cursor assignments
+   are not key commands and leave it alone) *)
+Theorem C09_step_sets_previous_handler : forall s c a s1,
+  (match c with SetCursor _ | Cpr => False | _ => True end) ->
+  step s c a = (0, s1) -> sprev s1 = binding_id (has_sel s) c.
+Proof. exact step_sets_prev. Qed.
+Print Assumptions C09_step_sets_previous_handler.
+
+(* M-d through [step]: without a typed argument the handler's repeat flag is
+   "previous handler = this binding"; with a typed argument it is false *)
+Theorem C09_kill_word_repeat_flag : forall s a,
+  svi s = false -> ssel s = None ->
+  step s KillWordMd a =
+  (let arg := match a with Some x => if 1000000 <=? x then 1 else x | None => 1 end in
+   let rep := match a with Some _ => false | None => sprev s =? 2 end in
+   let '(code, s') := kill_word s arg rep in
+   if code =? 0 then (0, with_prev (fix_vi_cursor s') 2)
+   else if code =? E_UNMODELLED then (code, s) else (code, with_prev s' 0)).
+Proof. exact step_kill_word_rep. Qed.
+Print Assumptions C09_kill_word_repeat_flag.
+
+(* a run of consecutive M-d presses of ANY length, through [step]: if the first
+   press is not itself a repeat and kills something, then after n further
+   presses the ring head is everything the run removed, in text order (run_inv:
+   text0 = pre ++ R ++ post with pre ending at the cursor, text = pre ++ post,
+   head = R), and one yank restores the text from before the run *)
+Theorem C09_consecutive_kill_words_accumulate : forall n s s1,
+  svi s = false -> ssel s = None -> Inv (sb s) -> sprev s <> 2 ->
+  step s KillWordMd None = (0, s1) -> sring s1 <> sring s ->
+  run_inv s (md_run n s1) /\
+  exists s3, yank (md_run n s1) 1 = (0, s3) /\ btext (sb s3) = btext (sb s).
+Proof. exact md_run_accumulates. Qed.
+Print Assumptions C09_consecutive_kill_words_accumulate.
 
 (* the hypotheses are satisfiable: C-k on "ab\ncd" at 0 kills "ab" *)
 Example C09_example_kill_line :
